@@ -1,11 +1,16 @@
 #!/usr/bin/env python3
-"""Re-run detection for every seeded change: apply seeded/<id>/patch.diff to /repo, run the quick check of the property it breaks
-(plus the extra checks named in EXTRA), undo the patch, record the result in seeded/<id>/meta.json and seeded/STATUS.md.
-Never run while another check is running (the patch is applied to /repo itself)."""
+"""Re-run detection for every seeded change.  Each change is applied to a scratch git worktree of /repo under /tmp (never to
+/repo itself); the quick check of the property it breaks (plus the extra checks named in EXTRA) runs against that tree through
+VERIF_REPO; the worktree is removed; the result goes to seeded/<id>/meta.json and seeded/STATUS.md.
+
+usage: lib/sweep_seeded.py [-j N] [<seeded id>...]"""
+import concurrent.futures
 import json
 import os
+import shutil
 import subprocess
 import sys
+import tempfile
 import time
 
 VERIF = os.path.dirname(os.path.dirname(os.path.abspath(__file__)))
@@ -18,44 +23,53 @@ def sh(cmd, **kw):
     return subprocess.run(cmd, shell=True, stdout=subprocess.PIPE, stderr=subprocess.STDOUT, text=True, **kw)
 
 
+def one(name):
+    d = os.path.join(VERIF, "seeded", name)
+    meta = json.load(open(os.path.join(d, "meta.json")))
+    prop = meta["breaks_property"]
+    wt = tempfile.mkdtemp(prefix="sweep-wt-")
+    os.rmdir(wt)
+    if sh("git -C /repo worktree add -q --detach %s HEAD" % wt).returncode != 0:
+        return (name, prop, "worktree failed", "")
+    caught = []
+    try:
+        if sh("git -C %s apply %s/patch.diff" % (wt, d)).returncode != 0:
+            return (name, prop, "patch does not apply any more", "")
+        for chk in [prop] + EXTRA.get(name, []):
+            t = time.time()
+            r = sh("cd %s && VERIF_REPO=%s VERIF_NOEVIDENCE=1 ./check %s --tier quick" % (VERIF, wt, chk))
+            if r.returncode == 1 and "VIOLATION property=%s" % chk in r.stdout:
+                caught.append(chk)
+            elif r.returncode not in (0, 1):
+                print(r.stdout[-1500:])
+            print("%s %s rc=%d %.0fs" % (name, chk, r.returncode, time.time() - t), flush=True)
+    finally:
+        sh("git -C /repo worktree remove --force %s" % wt)
+        shutil.rmtree(wt, ignore_errors=True)
+    meta["detected_now_by"] = caught
+    meta["detection_run"] = time.strftime("%Y-%m-%d %H:%M")
+    json.dump(meta, open(os.path.join(d, "meta.json"), "w"), indent=1)
+    return (name, prop, ", ".join("./check " + c for c in caught) or "MISSED", meta.get("needs_to_manifest", ""))
+
+
 def main():
-    only = sys.argv[1:]
-    rows = []
-    for name in sorted(os.listdir(os.path.join(VERIF, "seeded"))):
-        d = os.path.join(VERIF, "seeded", name)
-        if not os.path.isdir(d) or (only and name not in only):
-            continue
-        meta = json.load(open(os.path.join(d, "meta.json")))
-        prop = meta["breaks_property"]
-        if sh("git -C /repo diff --quiet").returncode != 0:
-            print("/repo has uncommitted changes")
-            return 2
-        if sh("git -C /repo apply %s/patch.diff" % d).returncode != 0:
-            rows.append((name, prop, "patch does not apply any more", ""))
-            continue
-        caught = []
-        try:
-            for chk in [prop] + EXTRA.get(name, []):
-                t = time.time()
-                r = sh("cd %s && VERIF_NOEVIDENCE=1 ./check %s --tier quick" % (VERIF, chk))
-                out = r.stdout
-                if r.returncode == 1 and "VIOLATION property=%s" % chk in out:
-                    caught.append(chk)
-                print("%s %s rc=%d %.0fs" % (name, chk, r.returncode, time.time() - t), flush=True)
-        finally:
-            sh("git -C /repo checkout -- .")
-        meta["detected_now_by"] = caught
-        meta["detection_run"] = time.strftime("%Y-%m-%d %H:%M")
-        json.dump(meta, open(os.path.join(d, "meta.json"), "w"), indent=1)
-        rows.append((name, prop, ", ".join("./check " + c for c in caught) or "MISSED", meta.get("needs_to_manifest", "")))
-    with open(os.path.join(VERIF, "seeded", "STATUS.md"), "w") as fh:
-        fh.write("# Seeded changes and the quick checks that catch them (written by lib/sweep_seeded.py)\n\n| seeded change | breaks | caught by | needs to manifest |\n|---|---|---|---|\n")
-        for r in rows:
-            fh.write("| %s | %s | %s | %s |\n" % r)
-        n = len(rows)
-        c = len([r for r in rows if r[2] != "MISSED" and not r[2].startswith("patch")])
-        fh.write("\n%d of %d caught.\n" % (c, n))
-    print("%d of %d caught" % (c, n))
+    args = sys.argv[1:]
+    jobs = 1
+    if args[:1] == ["-j"]:
+        jobs, args = int(args[1]), args[2:]
+    names = [n for n in sorted(os.listdir(os.path.join(VERIF, "seeded")))
+             if os.path.isdir(os.path.join(VERIF, "seeded", n)) and (not args or n in args)]
+    with concurrent.futures.ThreadPoolExecutor(jobs) as ex:
+        rows = list(ex.map(one, names))
+    if not args:
+        with open(os.path.join(VERIF, "seeded", "STATUS.md"), "w") as fh:
+            fh.write("# Seeded changes and the quick checks that catch them (written by lib/sweep_seeded.py)\n\n| seeded change | breaks | caught by | needs to manifest |\n|---|---|---|---|\n")
+            for r in rows:
+                fh.write("| %s | %s | %s | %s |\n" % r)
+            c = len([r for r in rows if r[2] != "MISSED" and "./check" in r[2]])
+            fh.write("\n%d of %d caught.\n" % (c, len(rows)))
+    for r in rows:
+        print(r[0], "->", r[2])
     return 0
 
 
